@@ -1608,3 +1608,22 @@ Proof.
   rewrite cconj_add, !cconj_mul, E1, E2. cring.
 Qed.
 End LindbladStd.
+
+(* ============================ verdicts of a stack: one threshold per member ============================ *)
+Theorem verdict_stack_per_member d atol Ds t : (t < length Ds)%nat ->
+  nth t (liouville_is_CP_stack RO d atol Ds) 0 = liouville_is_CP RO d atol (nth t Ds []) /\
+  nth t (liouville_is_cCP_stack RO d atol Ds) 0 = liouville_is_cCP RO d atol (nth t Ds []).
+Proof.
+  intros H. unfold liouville_is_CP_stack, liouville_is_cCP_stack. split.
+  - apply (nth_map_default (A:=list R) (liouville_is_CP RO d atol)); auto.
+  - apply (nth_map_default (A:=list R) (liouville_is_cCP RO d atol)); auto.
+Qed.
+(* hence the verdict of a member does not depend on the other members of the stack *)
+Corollary verdict_stack_independent d atol Ds Ds' t t' : (t < length Ds)%nat -> (t' < length Ds')%nat ->
+  nth t Ds [] = nth t' Ds' [] ->
+  nth t (liouville_is_CP_stack RO d atol Ds) 0 = nth t' (liouville_is_CP_stack RO d atol Ds') 0 /\
+  nth t (liouville_is_cCP_stack RO d atol Ds) 0 = nth t' (liouville_is_cCP_stack RO d atol Ds') 0.
+Proof.
+  intros H H' E. destruct (verdict_stack_per_member d atol Ds t H) as [A1 A2].
+  destruct (verdict_stack_per_member d atol Ds' t' H') as [B1 B2]. rewrite A1, A2, B1, B2, E. auto.
+Qed.
